@@ -116,3 +116,21 @@ package sign
 //@   ensures result1 == nil ==> result0 != nil
 //@   ensures typeis(result0, *round.Abort) ==> result0.(*round.Abort).Err != nil
 //@   ensures typeis(result0, *round.Output) ==> result0.(*round.Output).Result != nil
+
+// ---- content templates (C05): the handler asks every round for the value it decodes into; with the round's state
+// invariant this never panics, and a broadcast round always returns a template (refinement of round.BroadcastRound)
+//@ func (*round1S).MessageContent
+//@   nopanic[C05]
+//@   requires s1sok(r)
+//@   modifies nothing
+//@   allocates
+//@ func (*round2R).MessageContent
+//@   nopanic[C05]
+//@   requires s2rok(r)
+//@   modifies nothing
+//@   allocates
+//@ func (*round2S).MessageContent
+//@   nopanic[C05]
+//@   requires r != nil && s1sok(r.round1S)
+//@   modifies nothing
+//@   allocates
